@@ -58,6 +58,35 @@ pub struct SubjectDN<'a> {
     pub(crate) ca_id: Option<u64>,
 }
 
+/// Verification-harness constructors for the generator's name parameters (fields are crate-private).
+#[cfg(feature = "verif")]
+impl<'a> SubjectDN<'a> {
+    pub fn verif_new(
+        node_id: Option<u64>,
+        fabric_id: Option<u64>,
+        cat_ids: &'a [u32],
+        ca_id: Option<u64>,
+    ) -> Self {
+        Self {
+            node_id,
+            fabric_id,
+            cat_ids,
+            ca_id,
+        }
+    }
+}
+
+#[cfg(feature = "verif")]
+impl IssuerDN {
+    pub fn verif_new(ca_id: Option<u64>, fabric_id: Option<u64>, is_rcac: bool) -> Self {
+        Self {
+            ca_id,
+            fabric_id,
+            is_rcac,
+        }
+    }
+}
+
 /// Validity period for certificates, represented as seconds since the Matter epoch (2000-01-01T00:00:00Z).
 #[derive(Clone, Copy)]
 pub struct Validity {
